@@ -15,7 +15,7 @@ import numpy as np
 
 from . import model as M
 from . import oracles as O
-from .core import HarnessError, digest_of, jsonable
+from .core import HarnessError, SimInterrupt, SimModelError, digest_of, jsonable
 from .harness import violation
 from .runner import payload_digest, read_file_checkpoint, run_process
 
@@ -218,6 +218,7 @@ def explore(
         out["crash_points_exhaustive"] = True
 
     states: dict[str, dict] = {}
+    deep_done: set = set()
     run_file = os.path.join(workdir, "run.h5")
     for n, (seam, k) in enumerate(points):
         kind = "interrupt" if n % 2 == 0 else "model_error"
@@ -280,8 +281,14 @@ def explore(
                             w12, k=k,
                         )
                     )
-                # config + flow present and loadable through the documented route
-                err = _loadable(run_file, scn)
+                # config + flow present and loadable through the documented route (the full route -- rebuild, then a bare
+                # sample_posterior() -- once per distinct durable state of this scenario)
+                dkey = payload_digest(durable)
+                deep = durable is not None and dkey not in deep_done
+                if deep:
+                    deep_done.add(dkey)
+                    fired("documented_route_continuation")
+                err = _loadable(run_file, scn, deep=deep)
                 if err is not None:
                     V.append(
                         violation(
@@ -510,11 +517,15 @@ def _tag(v, **kw):
     return v
 
 
-def _loadable(path, scn):
-    """Try the documented resume route on a file; error string or None."""
+def _loadable(path, scn, deep=False):
+    """Try the documented resume route on a file; error string or None.
+
+    ``deep``: also do what docs/checkpointing.rst shows next -- call ``sample_posterior()`` with no arguments on the rebuilt
+    instance (on a scratch copy of the file) and require the continuation to run to its end."""
     from aspire import Aspire
     from aspire.utils import AspireFile
 
+    from .core import entropy_seam
     from .env import Model, SimLikelihood, SimPrior, Target
 
     try:
@@ -523,10 +534,28 @@ def _loadable(path, scn):
                 return "no aspire_config in file"
             if "flow" not in f:
                 return "no flow in file"
+            has_ck = "checkpoint" in f and "state" in f["checkpoint"]
         m = Model(Target.from_dict(scn["target"]))
         A = Aspire.resume_from_file(path, log_likelihood=SimLikelihood(m), log_prior=SimPrior(m))
         if A.flow is None:
             return "flow not loaded"
     except Exception as e:  # noqa: BLE001
         return f"{type(e).__name__}: {e}"
+    if deep and has_ck:
+        tmp = path + ".documented_route.h5"
+        try:
+            shutil.copy(path, tmp)
+            m = Model(Target.from_dict(scn["target"]))
+            with entropy_seam(int(scn["seeds"]["entropy"]) + 424242, None):
+                A = Aspire.resume_from_file(tmp, log_likelihood=SimLikelihood(m), log_prior=SimPrior(m))
+                out = A.sample_posterior()
+            if out is None or len(out.x) == 0:
+                return "documented route (resume_from_file, then sample_posterior()) returned nothing"
+        except (SimInterrupt, SimModelError):
+            raise
+        except Exception as e:  # noqa: BLE001
+            return f"documented route (resume_from_file, then sample_posterior() with no arguments) raised {type(e).__name__}: {e}"
+        finally:
+            if os.path.exists(tmp):
+                os.remove(tmp)
     return None
